@@ -81,7 +81,7 @@ def gen_dense(rng, thorough):
     rmin = min(sr)                     # quarters
     sigma = rng.randint(max(1, int(0.35 * 2 * rmin)), int(1.05 * 2 * rmin))
     return dict(stream="adaptive", dim=dim, frames=frames, t0=rng.choice([0, 3]), sr=sr, iso=iso,
-                memory=memory, strategy=rng.choice(["recursive", "nonrecursive", "numba"]),
+                memory=memory, strategy=rng.choice(["recursive", "nonrecursive", "numba", "hybrid"]),
                 entry=rng.choice(["link_iter", "link_iter", "link_df_iter"]), maxa=maxa,
                 step=list(pq), stop8=sigma)
 
@@ -89,7 +89,7 @@ def gen_dense(rng, thorough):
 def gen_cases(ctx):
     for inp in ctx.corpus():
         yield inp
-    n = ctx.n(400, 8000)
+    n = ctx.n(400, 5000)
     for i in range(n):
         rng = ctx.rng("dense", i)
         yield gen_dense(rng, ctx.thorough)
